@@ -1,12 +1,12 @@
 package core
 
 import (
-	"sync"
 	"fmt"
 	"go/constant"
 	"go/token"
 	"go/types"
 	"strings"
+	"sync"
 
 	"golang.org/x/tools/go/ssa"
 )
@@ -280,7 +280,6 @@ func AtomicLastArg(c ssa.CallInstruction) ssa.Value {
 	}
 	return as[len(as)-1]
 }
-
 
 // AtomicAccessor reports whether f is a transparent accessor of one atomic word.
 func AtomicAccessor(f *ssa.Function) bool {
